@@ -184,6 +184,35 @@ def extract (d : ClassDiagram) (comp : Option Nat) (drv : Bool) : Schema :=
   { classes := (d.classes.filter (fun c => inScope d.containers comp c.parent)).map (classOf d drv),
     groups := (d.rels.filter (fun r => inScope d.containers comp r.parent)).filterMap (groupOf d) }
 
+/-! ### what the calls above do when a definition is impossible
+
+  `define_class` raises MetaModelException for a second class with the same upper-cased name;
+  `define_association` looks both classes up with `find_metaclass` (UnknownClassException, a
+  MetaModelException) and checks every target key against the target class's attribute names, upper-cased
+  (MetaModelException).  A relationship that lies inside the component while one of its classes lies outside
+  therefore makes `mk_component` RAISE: no half-defined association ever reaches the result. -/
+
+def endDefinable (classes : List SClass) (e : SEnd) : Bool :=
+  classes.any (fun c => upper c.kl == upper e.kind)
+
+def targetKeysKnown (classes : List SClass) (e : SEnd) : Bool :=
+  match classes.find? (fun c => upper c.kl == upper e.kind) with
+  | some c => e.keys.all (fun k => (c.attrs.map (fun a => upper a.name)).contains (upper k))
+  | none => false
+
+def assocDefinable (classes : List SClass) (a : SAssoc) : Bool :=
+  endDefinable classes a.src && endDefinable classes a.tgt && targetKeysKnown classes a.tgt
+
+/-- no define_* call of the build raises -/
+def Schema.definable (s : Schema) : Bool :=
+  decide ((s.classes.map (fun c => upper c.kl)).Nodup) &&
+  s.groups.all (fun g => g.items.all (assocDefinable s.classes))
+
+/-- `mk_component` with its exceptions: `none` = MetaModelException (incl. UnknownClassException) -/
+def mkComponent (d : ClassDiagram) (comp : Option Nat) (drv : Bool) : Option Schema :=
+  let s := extract d comp drv
+  if s.definable then some s else none
+
 /-- `ModelLoader.build_component(name, derived_attributes)`; `none` = OoaOfOoaException -/
 def extractByName (d : ClassDiagram) (name : Option String) (drv : Bool) : Option Schema :=
   (selectComp d.containers name).map (fun comp => extract d comp drv)
